@@ -72,6 +72,21 @@ namespace options
             }
         }
 
+        /**
+         * Creates an user_input, which is taken verbatim as a value, whatever it looks like.
+         * This is used for everything after a double dash.
+         */
+        static user_input verbatim(const std::string& arg)
+        {
+            user_input result;
+            result.arg_ = arg;
+
+            return result;
+        }
+
+    private:
+        user_input() = default;
+
     public:
         bool is_value() const noexcept
         {
